@@ -40,6 +40,8 @@ template<typename T> struct Env {
     bool finished = false; int finishedWith = -1;
     std::string history;
     bool inBody = false;
+    int pendingK = -1, pendingCtx = 0;   // last continuation attached before finish (the one that must run)
+    bool delivered = false;              // a value task's result was handed to some continuation
 
     size_t refs() const { return promises.size() + tasks.size(); }
     QObject *ctxPtr(int c, int &eff) {
@@ -76,6 +78,7 @@ template<typename T> struct Env {
         auto tok = std::make_shared<Token>();
         auto run = [this, k, eff, body, tok, reentrant](const std::string &val) {
             evs.push_back("ran " + std::to_string(k) + " " + std::to_string(eff) + " " + val);
+            delivered = true;
             oracleRan(k, eff, val, reentrant);
             bool saved = inBody; inBody = true;
             for (auto &i : body) {
@@ -85,6 +88,14 @@ template<typename T> struct Env {
             inBody = saved;
         };
         auto t = aTask();
+        bool wasFinished = finished;
+        // property (at least once): attached after finish => runs now (void: always; value: iff the value is still there)
+        // ("still there" is the documented hasResult(): a value is not stored when a continuation was registered at finish)
+        bool mustRunNow = wasFinished;
+        if constexpr (!std::is_void_v<T>) mustRunNow = wasFinished && t.hasResult();
+        if (!wasFinished) { pendingK = k; pendingCtx = eff; }
+        struct AfterAttach { Env *e; int k; bool must; ~AfterAttach() {
+            if (must) { if (e->ranCount[k] != 1) oracleFail("C13:continuation-not-run", e->history); else oraclePass()++; } } } after{this, k, mustRunNow};
         if constexpr (std::is_void_v<T>) {
             t.then(p, [run]() { run("-"); });
         } else if constexpr (std::is_same_v<T, Val>) {
@@ -107,10 +118,15 @@ template<typename T> struct Env {
             int v; is >> v;
             if (refs() > 0 && !finished) {
                 finished = true; finishedWith = v;
+                bool destroyedAtFinish = pendingCtx != 0 && destroyed.count(pendingCtx);
                 // finish needs a promise: promises are dropped last, so one exists
                 if constexpr (std::is_void_v<T>) promises.front().finish();
                 else if constexpr (std::is_same_v<T, Val>) promises.front().finish(Val(v));
                 else promises.front().finish(std::make_unique<Val>(v));
+                // property (at least once): the continuation attached last before finish runs at finish if its context is alive
+                if (pendingK >= 0 && pendingCtx != 0 && !destroyedAtFinish) {
+                    if (ranCount[pendingK] != 1) oracleFail("C13:continuation-not-run", history); else oraclePass()++;
+                }
             }
         } else if (w == "destroy") {
             int c; is >> c; destroy(c);
